@@ -1,22 +1,81 @@
 import Pyrtma.Spec.Serial
 import Pyrtma.Props.C09
+import Pyrtma.Proofs.Serial
+import Pyrtma.Proofs.Json
+import Pyrtma.Proofs.Heap
 /-!
 # C10 — serialisation round trips are the identity
 
-Model M5 flattens a class to its leaf fields; `_to_dict` reads a leaf (`toDictLeaf`), `_from_dict` assigns the value
-back through M4's validated `setField` on a fresh all-zero object (`fromDictLeaf`).  Theorems: the dict round trip
-of a leaf is the identity on every *well-formed* content (`WF`: what the validated API can produce), for all widths
-and all contents; well-formedness of string fields is a theorem about M4 (this is where C10-F1 lived: before the fix a
-short string written over a long one left stale bytes, which are not well-formed and do not round-trip);
-`Message.from_json` refuses exactly the non-zero foreign versions.
+Three model parts (M5): `Model/Serial.lean` (bytes ↔ dictionary), `Model/Json.lean` (dictionary ↔ JSON text),
+`Model/Heap.lean` (storage: buffers, views, copies).
 
-Not theorems (checked on the implementation for every class, see harness/serial_corr.py): the array leaves
-(`leaf_roundtrip` below covers scalars, chars, bytes and strings; arrays are element-wise the same facts but the
-induction over `storeMany`/`writeAt` positions is not done), float32 leaves (need `narrow (widen x) = x`, rounding is
-an opaque parameter), the JSON *text* layer (Python's `json`), `bytes()/from_buffer_copy` and `copy` (ctypes).
+## 1. dictionary
+A message class is a **descriptor** `Desc` — the walk of `_fields_` that `_to_dict` / `_from_dict` perform: leaf
+descriptor fields of M4 (ints of every width, float/double, char, byte, string, byte array, numeric array of length n),
+nested structs (field list with the padding ctypes puts in front of each field and after the last), arrays of structs.
+`toDict d b` is the Python value `to_dict()` returns for an object with bytes `b`; `fromDict d v` is `_from_dict` on a
+fresh (all-zero) object: every leaf is assigned through M4's **validated** `setField` / `setItem` (`fromDictLeaf`), a
+string field accepts a list of characters, a missing key / short list / value of the wrong shape is an explicit error
+outcome, list items beyond a struct array's length are ignored.
+
+* `dict_roundtrip`: **for every descriptor `d` and every well-formed content `b` (`WFD d b`),
+  `fromDict d (toDict d b) = (b, none)`** — structural induction over the descriptor (mutual with the field-list
+  induction `fields_roundtrip`; the struct-array case is the induction over element positions `fromElems_roundtrip`).
+* its leaf cases, each for all widths / lengths / contents: `int_`, `byte_`, `char_`, `str_`, `f64_`, `f32_leaf_roundtrip`,
+  `int_array_roundtrip`, `float_array_roundtrip`, `byte_array_roundtrip` (the induction over the positions of the ctypes
+  slice store `storeMany` / `writeAt` is `Proofs/Serial.lean: storeMany_fill`), collected in `leaf_roundtrip`.
+* `wfB_sound` / `dict_roundtrip_of_check`: the decidable well-formedness check the driver runs on the bytes the real code
+  built implies `WFD`, hence the round trip.
+* well-formedness of string fields is a theorem about M4 (`wf_of_validated_str`, `str_assign_then_roundtrip`; this is
+  where C10-F1 lived: before the fix a short string written over a long one left stale bytes, which are not well-formed
+  and do not round-trip).
+* `Message.from_json` refuses exactly the non-zero foreign versions (`json_version_refused`, `json_version_accepted`).
+
+Floats: values cross as IEEE bit patterns.  `double` leaves and arrays round-trip **exactly** (every finite value, -0.0,
+every NaN payload; the validators never store an infinity, which is part of `WF`).  `float` (binary32) leaves and arrays
+round-trip under the **explicit hypothesis** `narrow (widen x) = x` for each stored element (part of `WFelem`; rounding is
+an opaque parameter of M4) — the driver evaluates this hypothesis on every `float` the real code stored.
+
+What `WFD` demands beyond "right length": strings NUL-terminated ASCII followed by NULs only, chars ASCII, no infinities,
+the `float` hypothesis, every padding byte zero, field names of a struct distinct, and the descriptor shapes the validator
+classes can build (`leafOk`: `String(n)`/`ByteArray(n)` with n > 1, `IntArray` of length ≥ 1 — a zero-length `IntArray`,
+which the message compiler refuses, would indeed not round-trip: see the examples).
+
+## 2. JSON text
+`render` = `json.dumps(..., cls=RTMAJSONEncoder)` (minified and indented layouts, every string escape the encoder emits,
+floats as opaque tokens), `parse` = `json.loads` on that subset (`Model/Json.lean`).
+
+* `json_text_roundtrip_min` / `_pretty` / `_indent`: **`parse (render v) = some v` for every document of the subset**
+  (`J.okB`: strings of Unicode scalar values, float tokens that the JSON grammar classes as floats), for both layouts —
+  one mutual induction over documents with the layout as a parameter (`Proofs/Json.lean: parseV_render`, …).
+* `toJ_ok`, `message_json_text_roundtrip`: every `to_dict()` of a well-formed message is encoded to a document of the
+  subset, so the text `to_json` writes is read back as that document.
+* `message_json_roundtrip` (with `json_dict_roundtrip`, `byte_array_list_roundtrip`): **message → text → message**:
+  `fromJson fparse d (renderMin j) = some (b, none)` (and for the indented text), where `j` is the encoder's document for
+  the message with bytes `b`.  Hypotheses, all about Python's float formatter/reader, which stay opaque: `ftok x` is a
+  float token, and `fparse (ftok x) = x` for the floats *of this message* (true for every double except NaNs with a sign
+  or payload — JSON has one NaN); and the class shapes `descOkJ` (struct arrays non-empty, of structs).
+
+## 3. copies
+`Model/Heap.lean`: objects are references (buffer address, offset, size) into a heap of buffers; `from_buffer_copy`
+allocates a fresh buffer, nested-struct attribute access gives a view into the same buffer, writes are `memmove`s.
+
+* `copy_is_equal`, `copy_is_fresh`, `write_to_copy_leaves_source`, `write_to_source_leaves_copy`: a copy has the class
+  and bytes of its source and lives alone in a new buffer: **writing any bytes into the copy leaves the source (and every
+  other live object, views of the source included) unchanged, and vice versa**.
+* `message_copy_spec`: `Message.copy` keeps the header **class** and bytes and the data class and bytes; the two new
+  objects are in two fresh buffers, disjoint from each other and from everything that existed.
+
+## not theorems (decided on the implementation on every run, `harness/serial_corr.py`)
+`bytes()` / `from_buffer_copy` as value operations of ctypes (the heap model is compared with real ctypes objects on
+random scripts, but that ctypes allocates fresh memory is an observation, not a theorem); Python's float `repr` / `float()`
+(tokens are supplied by the harness and checked against the JSON grammar); "every value constructible through the validated
+field API is well-formed" is a theorem for strings only — for the other kinds it is `wfB` evaluated on what the API built.
+Open finding **C10-F3**: the dictionary / JSON of a `TimeCodeMessageHeader` lacks the inherited header fields (examples at
+the end).
 -/
 namespace Pyrtma.C10
-open Pyrtma.Validators Pyrtma.Serial
+open Pyrtma.Validators Pyrtma.Serial Pyrtma.Json Pyrtma.Heap
 
 /-- **Version check**: header+data JSON is refused iff the header's version is non-zero and differs from the local hash -/
 theorem json_version_refused (v h : Nat) : versionRefused v h = true ↔ (v ≠ 0 ∧ v ≠ h) := by
@@ -122,6 +181,195 @@ theorem f64_leaf_roundtrip (b : Bytes) (hw : WF (.flt .f64) b) :
   simp only [fromDictLeaf, toDictLeaf, setField, setScalar, validateOne, toDouble, infAfter, hinf, if_true, e, lift,
     Bool.false_eq_true, if_false, encFlt, hle]
 
+/-! ### arrays: the induction over element positions -/
+/-- what ctypes reads from `k.size` bytes is in the validator's range and is written back as the same bytes -/
+theorem decInt_facts (k : IK) (c : Bytes) (hlen : c.length = k.size) (hby : ∀ x ∈ c, x < 256) :
+    k.lo ≤ decInt k c ∧ decInt k c ≤ k.hi ∧ encInt k (decInt k c) = c := by
+  have hlt := fromLE_lt c hby
+  have hle := toLE_fromLE c hby
+  rw [hlen] at hlt hle
+  have hr : k.lo ≤ decInt k c ∧ decInt k c ≤ k.hi ∧
+      ((decInt k c) % (2 ^ (8 * k.size) : Int)).toNat = fromLE c := by
+    unfold decInt
+    cases k <;> simp only [IK.size, IK.signed, IK.lo, IK.hi] at hlt ⊢ <;> simp at hlt ⊢ <;> omega
+  refine ⟨hr.1, hr.2.1, ?_⟩
+  simp only [encInt, hr.2.2, hle]
+
+theorem vk_int_ne_byte (k : IK) : (VK.int k == VK.byte) = false := by cases k <;> decide
+
+/-- **integer arrays** of every element width and every length ≥ 1: `to_dict` gives the list of element values,
+`from_dict` assigns it with `field[:] = list` (range check through Python's `max` / `min`, then the ctypes slice store,
+one element after the other) and every byte comes back -/
+theorem int_array_roundtrip (k : IK) (n : Nat) (hn : 0 < n) (b : Bytes) (hw : WF (.arr .intArray (.int k) n) b) :
+    fromDictLeaf (.arr .intArray (.int k) n) (toDictLeaf (.arr .intArray (.int k) n) b) = (b, none) := by
+  obtain ⟨hlen, hby, _⟩ := hw
+  simp only [FTy.size, VK.esize] at hlen
+  have hlen' : b.length = n * k.size := by rw [hlen, Nat.mul_comm]
+  have hcl := chunks_elem_length k.size n b hlen'
+  have hcb := chunks_elem_bytes k.size n b hby
+  let pairs : List (Scalar × Bytes) := (chunks k.size n b).map fun c => (Scalar.int (decInt k c), c)
+  have hp1 : pairs.map (·.1) = decodeItems (.int k) n b := by
+    simp [pairs, decodeItems, VK.esize, Function.comp_def]
+  have hp2 : (pairs.map (·.2)).flatten = b := by
+    simp only [pairs, List.map_map, Function.comp_def, List.map_id']
+    exact chunks_flatten k.size n b hlen'
+  have hpl : pairs.length = n := by simp [pairs, chunks_length]
+  have hst : ∀ p ∈ pairs, elemStore (.int k) p.1 = .ok p.2 ∧ p.2.length = (VK.int k).esize := by
+    intro p hp
+    simp only [pairs, List.mem_map] at hp
+    obtain ⟨c, hc, rfl⟩ := hp
+    have := decInt_facts k c (hcl c hc) (hcb c hc)
+    simp only [elemStore, this.2.2, VK.esize, hcl c hc, and_self]
+  -- the Python-level check
+  have hchk : intMany k.lo k.hi false (decodeItems (.int k) n b) = .ok () := by
+    rw [← hp1]
+    unfold intMany
+    have h1 : (pairs.map (·.1)).any (fun x => !isIntLike x) = false := by
+      simp [pairs, isIntLike]
+    simp only [h1, Bool.false_eq_true, if_false]
+    have hvals : (pairs.map (·.1)).map intVal = (chunks k.size n b).map (decInt k) := by
+      simp [pairs, intVal, Function.comp_def]
+    rw [hvals]
+    have hin : ∀ y ∈ (chunks k.size n b).map (decInt k), k.lo ≤ y ∧ y ≤ k.hi := by
+      intro y hy
+      simp only [List.mem_map] at hy
+      obtain ⟨c, hc, rfl⟩ := hy
+      have := decInt_facts k c (hcl c hc) (hcb c hc)
+      exact ⟨this.1, this.2.1⟩
+    match hm : (chunks k.size n b).map (decInt k), hin with
+    | [], _ =>
+      have : ((chunks k.size n b).map (decInt k)).length = n := by simp [chunks_length]
+      rw [hm] at this; simp at this; omega
+    | y :: ys, hin =>
+      have hy := hin y (by simp)
+      have h2 := pyMax_le k.hi ys y hy.2 (fun z hz => (hin z (by simp [hz])).2)
+      have h3 := pyMin_ge k.lo ys y hy.1 (fun z hz => (hin z (by simp [hz])).1)
+      have : ¬ (pyMax y ys > k.hi ∨ pyMin y ys < k.lo) := by omega
+      simp only [this, if_false]
+  have hfill := storeSlice_fill (.int k) n pairs hpl hst
+  rw [hp1, hp2] at hfill
+  simp only [fromDictLeaf, toDictLeaf, setItem, itemCheck, iterable, validateMany, items, oneShot, hchk, if_true,
+    vk_int_ne_byte, Bool.and_false, Bool.false_eq_true, if_false, FTy.size]
+  exact hfill
+
+theorem vk_flt_ne_byte (k : FK) : (VK.flt k == VK.byte) = false := by cases k <;> decide
+
+/-- the Python float `to_dict` shows for the stored bytes `c` of a `double` / `float` element -/
+def fdec (k : FK) (c : Bytes) : Nat := match k with | .f64 => fromLE c | .f32 => widen (fromLE c)
+
+theorem decodeItems_flt (k : FK) (n : Nat) (b : Bytes) :
+    decodeItems (.flt k) n b = (chunks k.size n b).map fun c => Scalar.flt (fdec k c) := by
+  cases k <;> simp [decodeItems, fdec, VK.esize]
+
+/-- one float element: the value read is accepted by the validator and is stored back as the same bytes -/
+theorem flt_elem_facts (k : FK) (c : Bytes) (hlen : c.length = k.size) (hby : ∀ x ∈ c, x < 256)
+    (hw : WFelem (.flt k) c) : infAfter k (fdec k c) = false ∧ encFlt k (fdec k c) = c := by
+  have hle := toLE_fromLE c hby
+  rw [hlen] at hle
+  cases k with
+  | f64 =>
+    simp only [WFelem] at hw
+    simp only [FK.size] at hle
+    exact ⟨by simp only [infAfter, fdec, hw], by simp only [encFlt, fdec, hle]⟩
+  | f32 =>
+    simp only [WFelem] at hw
+    simp only [FK.size] at hle
+    exact ⟨by simp only [infAfter, fdec, hw.2, hw.1], by simp only [encFlt, fdec, hw.2, hle]⟩
+
+theorem elemStore_flt (k : FK) (w : Nat) : elemStore (.flt k) (.flt w) = .ok (encFlt k w) := by cases k <;> rfl
+
+theorem fltMany_ok (k : FK) : ∀ (ws : List Nat), (∀ w ∈ ws, infAfter k w = false) → fltMany k (ws.map Scalar.flt) = .ok ()
+  | [], _ => rfl
+  | w :: ws, h => by
+    simp only [List.map_cons, fltMany, toDouble, h w (by simp), Bool.false_eq_true, if_false]
+    exact fltMany_ok k ws (fun v hv => h v (by simp [hv]))
+
+/-- **float arrays**, every length: `double` elements bit for bit (every finite value, -0.0, every NaN payload);
+`float` elements under the explicit rounding hypothesis of `WFelem` (`narrow (widen x) = x` for each stored element) -/
+theorem float_array_roundtrip (k : FK) (n : Nat) (b : Bytes) (hw : WF (.arr .floatArray (.flt k) n) b) :
+    fromDictLeaf (.arr .floatArray (.flt k) n) (toDictLeaf (.arr .floatArray (.flt k) n) b) = (b, none) := by
+  obtain ⟨hlen, hby, hel⟩ := hw
+  simp only [FTy.size, VK.esize] at hlen
+  simp only [VK.esize] at hel
+  have hlen' : b.length = n * k.size := by rw [hlen, Nat.mul_comm]
+  have hcl := chunks_elem_length k.size n b hlen'
+  have hcb := chunks_elem_bytes k.size n b hby
+  let pairs : List (Scalar × Bytes) := (chunks k.size n b).map fun c => (Scalar.flt (fdec k c), c)
+  have hp1 : pairs.map (·.1) = decodeItems (.flt k) n b := by
+    simp [pairs, decodeItems_flt, Function.comp_def]
+  have hp2 : (pairs.map (·.2)).flatten = b := by
+    simp only [pairs, List.map_map, Function.comp_def, List.map_id']
+    exact chunks_flatten k.size n b hlen'
+  have hpl : pairs.length = n := by simp [pairs, chunks_length]
+  have hst : ∀ p ∈ pairs, elemStore (.flt k) p.1 = .ok p.2 ∧ p.2.length = (VK.flt k).esize := by
+    intro p hp
+    simp only [pairs, List.mem_map] at hp
+    obtain ⟨c, hc, rfl⟩ := hp
+    have := flt_elem_facts k c (hcl c hc) (hcb c hc) (hel c hc)
+    simp only [elemStore_flt, this.2, VK.esize, hcl c hc, and_self]
+  have hchk : fltMany k (decodeItems (.flt k) n b) = .ok () := by
+    rw [decodeItems_flt]
+    have := fltMany_ok k ((chunks k.size n b).map (fdec k)) (by
+      intro w hw
+      simp only [List.mem_map] at hw
+      obtain ⟨c, hc, rfl⟩ := hw
+      exact (flt_elem_facts k c (hcl c hc) (hcb c hc) (hel c hc)).1)
+    simpa [Function.comp_def] using this
+  have hfill := storeSlice_fill (.flt k) n pairs hpl hst
+  rw [hp1, hp2] at hfill
+  simp only [fromDictLeaf, toDictLeaf, setItem, itemCheck, iterable, validateMany, items, hchk, if_true,
+    vk_flt_ne_byte, Bool.and_false, Bool.false_eq_true, if_false, FTy.size]
+  exact hfill
+
+/-- **byte arrays** (`ByteArray(n)`, n ≥ 2): `to_dict` gives `bytes`, `from_dict` assigns them with `field[:] = bytes`
+(converted to a list of ints, stored element by element) -/
+theorem byte_array_roundtrip (n : Nat) (hn : 1 < n) (b : Bytes) (hw : WF (.arr .byteArray .byte n) b) :
+    fromDictLeaf (.arr .byteArray .byte n) (toDictLeaf (.arr .byteArray .byte n) b) = (b, none) := by
+  obtain ⟨hlen, hby, _⟩ := hw
+  simp only [FTy.size, VK.esize, Nat.one_mul] at hlen
+  let pairs : List (Scalar × Bytes) := b.map fun (x : Nat) => (Scalar.int (x : Int), [x])
+  have hp1 : pairs.map (·.1) = b.map fun (x : Nat) => Scalar.int (x : Int) := by simp [pairs, Function.comp_def]
+  have hsing : ∀ (l : List Nat), (l.map fun x => [x]).flatten = l := by
+    intro l; induction l with
+    | nil => rfl
+    | cons x xs ih => simp [ih]
+  have hp2 : (pairs.map (·.2)).flatten = b := by
+    simp only [pairs, List.map_map, Function.comp_def]
+    exact hsing b
+  have hpl : pairs.length = n := by simp [pairs, hlen]
+  have hst : ∀ p ∈ pairs, elemStore .byte p.1 = .ok p.2 ∧ p.2.length = VK.byte.esize := by
+    intro p hp
+    simp only [pairs, List.mem_map] at hp
+    obtain ⟨x, hx, rfl⟩ := hp
+    have hx' := hby x hx
+    have e2 : encInt .u8 (x : Int) = [x] := by
+      simp only [encInt, IK.size, toLE]
+      have : (((x : Int) % (2 ^ (8 * 1) : Int)).toNat) = x := by simp; omega
+      rw [this]; simp; omega
+    simp only [elemStore, e2, VK.esize, List.length_cons, List.length_nil, and_self]
+  have hfill := storeSlice_fill .byte n pairs hpl hst
+  rw [hp1, hp2] at hfill
+  have hconv : byteConv (.sc (.bytes b)) = .seq .list (b.map fun (x : Nat) => Scalar.int (x : Int)) := by
+    match b, hlen with
+    | [], h => simp at h; omega
+    | [_], h => simp at h; omega
+    | _ :: _ :: _, _ => rfl
+  simp only [fromDictLeaf, toDictLeaf, setItem, itemCheck, iterable, validateMany, if_true, hconv,
+    Bool.and_self, beq_self_eq_true, FTy.size]
+  simpa [VK.esize] using hfill
+
+theorem flt_scalar_store (k : FK) (w : Nat) (b : Bytes) (h1 : infAfter k w = false) (h2 : encFlt k w = b) :
+    fromDictLeaf (.flt k) (.sc (.flt w)) = (b, none) := by
+  simp only [fromDictLeaf, setField, setScalar, validateOne, toDouble, h1, if_true, elemStore_flt, lift,
+    Bool.false_eq_true, if_false, h2]
+
+/-- **float (binary32) scalar leaves**, under the explicit rounding hypothesis of `WFelem` -/
+theorem f32_leaf_roundtrip (b : Bytes) (hw : WF (.flt .f32) b) :
+    fromDictLeaf (.flt .f32) (toDictLeaf (.flt .f32) b) = (b, none) := by
+  obtain ⟨hlen, hby, hel⟩ := hw
+  have hf := flt_elem_facts .f32 b hlen hby hel
+  exact flt_scalar_store .f32 _ b hf.1 hf.2
+
 theorem upToNul_subset : ∀ (cs : List Nat) (c : Nat), c ∈ upToNul cs → c ∈ cs
   | [], c, h => by simp [upToNul] at h
   | x :: xs, c, h => by
@@ -164,6 +412,639 @@ theorem str_assign_then_roundtrip (n : Nat) (hn : 1 < n) (old : Bytes) (s : Scal
     fromDictLeaf (.str n) (toDictLeaf (.str n) post) = (post, none) :=
   str_leaf_roundtrip n hn post (wf_of_validated_str n hn old s post h)
 
+/-! ### whole classes -/
+/-- **every leaf descriptor the validator classes can build** round-trips through `to_dict` / `from_dict` on every
+well-formed content -/
+theorem leaf_roundtrip (ty : FTy) (hok : leafOk ty = true) (b : Bytes) (hw : WF ty b) :
+    fromDictLeaf ty (toDictLeaf ty b) = (b, none) := by
+  match ty, hok, hw with
+  | .int k, _, hw => exact int_leaf_roundtrip k b hw
+  | .flt .f64, _, hw => exact f64_leaf_roundtrip b hw
+  | .flt .f32, _, hw => exact f32_leaf_roundtrip b hw
+  | .char, _, hw => exact char_leaf_roundtrip b hw
+  | .byte, _, hw => exact byte_leaf_roundtrip b hw
+  | .str n, hok, hw => exact str_leaf_roundtrip n (by simpa [leafOk] using hok) b hw
+  | .arr .byteArray .byte n, hok, hw => exact byte_array_roundtrip n (by simpa [leafOk] using hok) b hw
+  | .arr .intArray (.int k) n, hok, hw => exact int_array_roundtrip k n (by simpa [leafOk] using hok) b hw
+  | .arr .floatArray (.flt k) n, _, hw => exact float_array_roundtrip k n b hw
+
+theorem leafArg_toDictLeaf (ty : FTy) (b : Bytes) : leafArg ty (toDictLeaf ty b) = toDictLeaf ty b := by
+  cases ty <;> rfl
+
+theorem Vals_toList_ofList : ∀ (l : List Val), (Vals.ofList l).toList = l
+  | [] => rfl
+  | v :: vs => by simp [Vals.ofList, Vals.toList, Vals_toList_ofList vs]
+
+theorem fromElems_roundtrip (f : Val → Bytes × Option DErr) (g : Bytes → Val) (esz : Nat) :
+    ∀ (cs : List Bytes), (∀ c ∈ cs, f (g c) = (c, none)) → fromElems f esz cs.length (cs.map g) = (cs.flatten, none)
+  | [], _ => rfl
+  | c :: cs, h => by
+    have ih := fromElems_roundtrip f g esz cs (fun d hd => h d (by simp [hd]))
+    simp only [List.length_cons, List.map_cons, fromElems, h c (by simp), ih, List.flatten_cons]
+
+theorem lookup_append (name : String) (v : Val) (rest : KVs) :
+    ∀ (pre : KVs), name ∉ pre.keys → (pre.append (.cons name v rest)).lookup name = some v
+  | .nil, _ => by simp [KVs.append, KVs.lookup]
+  | .cons k w r, h => by
+    simp only [KVs.keys, List.mem_cons, not_or] at h
+    have hk : (k == name) = false := by simpa using fun e => h.1 e.symm
+    simp only [KVs.append, KVs.lookup, hk, Bool.false_eq_true, if_false]
+    exact lookup_append name v rest r h.2
+
+theorem append_assoc_one (name : String) (v : Val) (rest : KVs) :
+    ∀ (pre : KVs), pre.append (.cons name v rest) = (pre.append (.cons name v .nil)).append rest
+  | .nil => rfl
+  | .cons k w r => by simp only [KVs.append, append_assoc_one name v rest r]
+
+theorem keys_append_one (name : String) (v : Val) : ∀ (pre : KVs), (pre.append (.cons name v .nil)).keys = pre.keys ++ [name]
+  | .nil => rfl
+  | .cons k w r => by simp only [KVs.append, KVs.keys, keys_append_one name v r, List.cons_append]
+
+theorem WFF_length : ∀ (fs : Fields) (b : Bytes), WFF fs b → b.length = fs.size
+  | .nil, b, h => by simp only [WFF] at h; simp [h, Fields.size]
+  | .cons name pad d r, b, h => by
+    simp only [WFF] at h
+    obtain ⟨db, rb, rfl, hl, _, hr, _⟩ := h
+    have := WFF_length r rb hr
+    simp [Fields.size, zeros_length, hl, this]; omega
+
+mutual
+/-- **Whole-message dict round trip**: for every class descriptor (any nesting of structs, struct arrays, and leaf
+fields of every kind and length) and every well-formed content, `from_dict(to_dict(m))` has exactly the bytes of `m`
+and raises nothing.  Structural induction over the descriptor; the struct-array case is the induction over element
+positions, the struct case the induction over the field list with the dictionary built so far as accumulator. -/
+theorem dict_roundtrip : ∀ (d : Desc) (b : Bytes), WFD d b → fromDict d (toDict d b) = (b, none)
+  | .leaf ty, b, h => by
+    simp only [WFD] at h
+    simp only [toDict, fromDict, leafArg_toDictLeaf, leaf_roundtrip ty h.1 b h.2, Option.map_none]
+  | .strct fs tail, b, h => by
+    simp only [WFD] at h
+    obtain ⟨fb, rfl, hf⟩ := h
+    have := fields_roundtrip fs fb (zeros tail) .nil hf (by simp [KVs.keys])
+    simp only [KVs.append] at this
+    simp only [toDict, fromDict, this]
+  | .sarr n e, b, h => by
+    simp only [WFD] at h
+    obtain ⟨hl, hc⟩ := h
+    have ih : ∀ c ∈ chunks e.size n b, fromDict e (toDict e c) = (c, none) := fun c hcm => dict_roundtrip e c (hc c hcm)
+    have := fromElems_roundtrip (fun v => fromDict e v) (fun c => toDict e c) e.size (chunks e.size n b) ih
+    rw [chunks_length, chunks_flatten e.size n b hl] at this
+    simp only [toDict, fromDict, Vals_toList_ofList, this]
+/-- the field-list induction: `kvs` is the whole dictionary (`pre` are the entries of the fields already done) -/
+theorem fields_roundtrip : ∀ (fs : Fields) (b rest : Bytes) (pre : KVs), WFF fs b → (∀ nm ∈ fs.names, nm ∉ pre.keys) →
+    fromDictFields fs (pre.append (toDictFields fs (b ++ rest))) = (b, none)
+  | .nil, b, rest, pre, h, _ => by
+    simp only [WFF] at h
+    simp [fromDictFields, h]
+  | .cons name pad d r, b, rest, pre, h, hn => by
+    simp only [WFF] at h
+    obtain ⟨db, rb, rfl, hl, hd, hr, hnr⟩ := h
+    have hz : (zeros pad).length = pad := zeros_length pad
+    have e1 : ((zeros pad ++ db ++ rb ++ rest).drop pad).take d.size = db := by
+      rw [List.append_assoc, List.append_assoc, List.drop_left' hz, List.take_left' hl]
+    have e2 : (zeros pad ++ db ++ rb ++ rest).drop (pad + d.size) = rb ++ rest := by
+      rw [List.append_assoc]
+      exact List.drop_left' (by simp [hz, hl])
+    have hname : name ∉ pre.keys := hn name (by simp [Fields.names])
+    simp only [toDictFields, e1, e2, fromDictFields, lookup_append name _ _ pre hname, dict_roundtrip d db hd]
+    rw [append_assoc_one]
+    have hn' : ∀ nm ∈ r.names, nm ∉ (pre.append (.cons name (toDict d db) .nil)).keys := by
+      intro nm hnm
+      rw [keys_append_one]
+      simp only [List.mem_append, List.mem_singleton, not_or]
+      exact ⟨hn nm (by simp [Fields.names, hnm]), fun e => hnr (e ▸ hnm)⟩
+    rw [fields_roundtrip r rb rest _ hr hn']
+end
+
+/-! ### the decidable form of well-formedness -/
+theorem wfElemB_sound (vk : VK) (c : Bytes) (h : wfElemB vk c = true) : WFelem vk c := by
+  unfold wfElemB at h
+  unfold WFelem
+  split at h <;> simp_all
+
+theorem wfLeafB_sound (ty : FTy) (b : Bytes) (h : wfLeafB ty b = true) : WF ty b := by
+  unfold wfLeafB at h
+  simp only [Bool.and_eq_true, beq_iff_eq, List.all_eq_true, decide_eq_true_eq] at h
+  obtain ⟨⟨hl, hb⟩, hm⟩ := h
+  refine ⟨hl, hb, ?_⟩
+  match ty, hm with
+  | .char, hm => simpa using hm
+  | .flt .f64, hm => simpa using hm
+  | .flt .f32, hm => exact wfElemB_sound _ _ hm
+  | .str n, hm =>
+    simp only [Bool.and_eq_true, List.all_eq_true, decide_eq_true_eq, beq_iff_eq] at hm
+    obtain ⟨⟨h1, h2⟩, h3⟩ := hm
+    refine ⟨upToNul b, ?_, h2, h3⟩
+    intro c hc
+    have := C09.upToNul_no_zero b c hc
+    exact ⟨by omega, h1 c hc⟩
+  | .arr _ vk n, hm =>
+    simp only [List.all_eq_true] at hm
+    exact fun c hc => wfElemB_sound vk c (hm c hc)
+  | .int _, _ => trivial
+  | .byte, _ => trivial
+  | .strct _ _, _ => trivial
+
+mutual
+/-- the decidable check the driver runs on the real bytes implies the hypothesis of `dict_roundtrip` -/
+theorem wfB_sound : ∀ (d : Desc) (b : Bytes), wfB d b = true → WFD d b
+  | .leaf ty, b, h => by
+    simp only [wfB, Bool.and_eq_true] at h
+    simp only [WFD]
+    exact ⟨h.1, wfLeafB_sound ty b h.2⟩
+  | .strct fs tail, b, h => by
+    simp only [wfB, Bool.and_eq_true, beq_iff_eq] at h
+    simp only [WFD]
+    refine ⟨b.take fs.size, ?_, wfFieldsB_sound fs _ h.1⟩
+    rw [← h.2, List.take_append_drop]
+  | .sarr n e, b, h => by
+    simp only [wfB, Bool.and_eq_true, beq_iff_eq, List.all_eq_true] at h
+    simp only [WFD]
+    exact ⟨h.1, fun c hc => wfB_sound e c (h.2 c hc)⟩
+theorem wfFieldsB_sound : ∀ (fs : Fields) (b : Bytes), wfFieldsB fs b = true → WFF fs b
+  | .nil, b, h => by
+    simp only [wfFieldsB, List.isEmpty_iff] at h
+    simp only [WFF, h]
+  | .cons name pad d r, b, h => by
+    simp only [wfFieldsB, Bool.and_eq_true, beq_iff_eq, Bool.not_eq_true', List.contains_eq_mem,
+      decide_eq_false_iff_not] at h
+    obtain ⟨⟨⟨⟨h1, h2⟩, h3⟩, h4⟩, h5⟩ := h
+    simp only [WFF]
+    refine ⟨(b.drop pad).take d.size, b.drop (pad + d.size), ?_, h2, wfB_sound d _ h3, wfFieldsB_sound r _ h4, h5⟩
+    rw [← h1, ← List.drop_drop, List.append_assoc, List.take_append_drop, List.take_append_drop]
+end
+
+/-- consequently: whatever bytes pass the driver's check round-trip in the model -/
+theorem dict_roundtrip_of_check (d : Desc) (b : Bytes) (h : wfB d b = true) : fromDict d (toDict d b) = (b, none) :=
+  dict_roundtrip d b (wfB_sound d b h)
+
+/-! ### the JSON text layer -/
+
+/-- **`json.loads(json.dumps(v)) == v`, minified form** (`to_json(minify=True)`): every document of the modelled subset
+— integers, strings of Unicode scalar values (every escape the encoder emits), opaque float tokens, arrays, objects —
+is read back as itself -/
+theorem json_text_roundtrip_min (v : J) (hv : v.okB = true) : parse (renderMin v) = some v :=
+  parse_render none 0 v hv
+
+/-- the same for the indented form (`to_json()`, `indent=2`) — and for any other indentation width -/
+theorem json_text_roundtrip_pretty (v : J) (hv : v.okB = true) : parse (renderPretty v) = some v :=
+  parse_render (some 2) 0 v hv
+
+theorem json_text_roundtrip_indent (k : Nat) (v : J) (hv : v.okB = true) : parse (render (some k) 0 v) = some v :=
+  parse_render (some k) 0 v hv
+
+theorem ascii_valid (c : Nat) (h : c < 128) : validCp c = true := by
+  simp [validCp]; omega
+
+theorem keyOf_valid (k : String) : (keyOf k).all validCp = true := by
+  simp only [keyOf, List.all_eq_true, List.mem_map]
+  rintro c ⟨ch, _, rfl⟩
+  have := ch.valid
+  simp only [validCp, Bool.or_eq_true, Bool.and_eq_true, decide_eq_true_eq]
+  simp only [UInt32.isValidChar, Nat.isValidChar] at this
+  exact this
+
+theorem ofList_ints_ok : ∀ (bs : List Nat), (JL.ofList (bs.map fun (b : Nat) => J.int (b : Int))).okB = true
+  | [] => rfl
+  | b :: bs => by simp [JL.ofList, JL.okB, J.okB, ofList_ints_ok bs]
+
+theorem seqJ_ok (ftok : Nat → List Char) (hf : ∀ x, floatTokOk (ftok x) = true) :
+    ∀ (xs : List Scalar), (∀ x ∈ xs, (∃ n, x = .int n) ∨ (∃ w, x = .flt w)) → ∃ js, seqJ ftok xs = some js ∧ js.okB = true
+  | [], _ => ⟨.nil, rfl, rfl⟩
+  | x :: xs, h => by
+    obtain ⟨js, he, hok⟩ := seqJ_ok ftok hf xs (fun y hy => h y (by simp [hy]))
+    rcases h x (by simp) with ⟨n, rfl⟩ | ⟨w, rfl⟩
+    · exact ⟨.cons (.int n) js, by simp [seqJ, scalarJ, he], by simp [JL.okB, J.okB, hok]⟩
+    · exact ⟨.cons (.flt (ftok w)) js, by simp [seqJ, scalarJ, he], by simp [JL.okB, J.okB, hok, hf]⟩
+
+/-- every leaf value `to_dict` produces from well-formed bytes is encoded to a document of the subset -/
+theorem leaf_toJ_ok (ftok : Nat → List Char) (hf : ∀ x, floatTokOk (ftok x) = true) (ty : FTy) (hok : leafOk ty = true)
+    (b : Bytes) (hw : WF ty b) : ∃ j, pyValJ ftok (toDictLeaf ty b) = some j ∧ j.okB = true := by
+  match ty, hok, hw with
+  | .int k, _, _ => exact ⟨_, rfl, rfl⟩
+  | .flt .f64, _, _ => exact ⟨_, rfl, hf _⟩
+  | .flt .f32, _, _ => exact ⟨_, rfl, hf _⟩
+  | .byte, _, _ => exact ⟨_, rfl, rfl⟩
+  | .char, _, hw =>
+    refine ⟨.str b, rfl, ?_⟩
+    simp only [J.okB, List.all_eq_true]
+    exact fun c hc => ascii_valid c (hw.2.2 c hc)
+  | .str n, _, hw =>
+    refine ⟨.str (upToNul b), rfl, ?_⟩
+    obtain ⟨_, _, cs, hcs, _, rfl⟩ := hw
+    simp only [J.okB, List.all_eq_true]
+    intro c hc
+    have := upToNul_subset _ c hc
+    simp only [List.mem_append, List.mem_replicate] at this
+    rcases this with h | ⟨_, rfl⟩
+    · exact ascii_valid c (hcs c h).2
+    · rfl
+  | .arr .byteArray .byte n, _, _ => exact ⟨_, rfl, ofList_ints_ok b⟩
+  | .arr .intArray (.int k) n, _, _ =>
+    obtain ⟨js, he, hok⟩ := seqJ_ok ftok hf (decodeItems (.int k) n b) (by
+      intro x hx; simp only [decodeItems, List.mem_map] at hx
+      obtain ⟨c, _, rfl⟩ := hx; exact Or.inl ⟨_, rfl⟩)
+    exact ⟨.arr js, by simp [toDictLeaf, pyValJ, he], hok⟩
+  | .arr .floatArray (.flt k) n, _, _ =>
+    obtain ⟨js, he, hok⟩ := seqJ_ok ftok hf (decodeItems (.flt k) n b) (by
+      intro x hx; rw [decodeItems_flt] at hx; simp only [List.mem_map] at hx
+      obtain ⟨c, _, rfl⟩ := hx; exact Or.inr ⟨_, rfl⟩)
+    exact ⟨.arr js, by simp [toDictLeaf, pyValJ, he], hok⟩
+
+theorem toJL_ofList (ftok : Nat → List Char) : ∀ (vs : List Val),
+    (∀ v ∈ vs, ∃ j, toJ ftok v = some j ∧ j.okB = true) → ∃ js, toJL ftok (Vals.ofList vs) = some js ∧ js.okB = true
+  | [], _ => ⟨.nil, rfl, rfl⟩
+  | v :: vs, h => by
+    obtain ⟨j, he, hok⟩ := h v (by simp)
+    obtain ⟨js, hes, hoks⟩ := toJL_ofList ftok vs (fun w hw => h w (by simp [hw]))
+    exact ⟨.cons j js, by simp [Vals.ofList, toJL, he, hes], by simp [JL.okB, hok, hoks]⟩
+
+mutual
+/-- every `to_dict()` of a well-formed message is encoded to a document of the subset (given that the float formatter
+yields float tokens — `float.__repr__`, opaque) -/
+theorem toJ_ok (ftok : Nat → List Char) (hf : ∀ x, floatTokOk (ftok x) = true) :
+    ∀ (d : Desc) (b : Bytes), WFD d b → ∃ j, toJ ftok (toDict d b) = some j ∧ j.okB = true
+  | .leaf ty, b, h => by
+    simp only [WFD] at h
+    simpa only [toDict, toJ] using leaf_toJ_ok ftok hf ty h.1 b h.2
+  | .strct fs tail, b, h => by
+    simp only [WFD] at h
+    obtain ⟨fb, rfl, hfb⟩ := h
+    obtain ⟨js, he, hok⟩ := toJO_ok ftok hf fs fb (zeros tail) hfb
+    exact ⟨.obj js, by simp [toDict, toJ, he], hok⟩
+  | .sarr n e, b, h => by
+    simp only [WFD] at h
+    obtain ⟨js, he, hok⟩ := toJL_ofList ftok ((chunks e.size n b).map fun c => toDict e c) (by
+      intro v hv; simp only [List.mem_map] at hv
+      obtain ⟨c, hc, rfl⟩ := hv
+      exact toJ_ok ftok hf e c (h.2 c hc))
+    exact ⟨.arr js, by simp [toDict, toJ, he], hok⟩
+theorem toJO_ok (ftok : Nat → List Char) (hf : ∀ x, floatTokOk (ftok x) = true) :
+    ∀ (fs : Fields) (b rest : Bytes), WFF fs b → ∃ js, toJO ftok (toDictFields fs (b ++ rest)) = some js ∧ js.okB = true
+  | .nil, _, _, _ => ⟨.nil, rfl, rfl⟩
+  | .cons name pad d r, b, rest, h => by
+    simp only [WFF] at h
+    obtain ⟨db, rb, rfl, hl, hd, hr, _⟩ := h
+    have hz : (zeros pad).length = pad := zeros_length pad
+    have e1 : ((zeros pad ++ db ++ rb ++ rest).drop pad).take d.size = db := by
+      rw [List.append_assoc, List.append_assoc, List.drop_left' hz, List.take_left' hl]
+    have e2 : (zeros pad ++ db ++ rb ++ rest).drop (pad + d.size) = rb ++ rest := by
+      rw [List.append_assoc]
+      exact List.drop_left' (by simp [hz, hl])
+    obtain ⟨j, he, hok⟩ := toJ_ok ftok hf d db hd
+    obtain ⟨js, hes, hoks⟩ := toJO_ok ftok hf r rb rest hr
+    exact ⟨.cons (keyOf name) j js, by simp only [toDictFields, e1, e2, toJO, he, hes],
+      by simp [JO.okB, keyOf_valid, hok, hoks]⟩
+end
+
+/-- **message level**: for every class and every well-formed content, the JSON text `to_json` writes (either layout)
+is read back by `json.loads` as exactly the document the encoder was given -/
+theorem message_json_text_roundtrip (ftok : Nat → List Char) (hf : ∀ x, floatTokOk (ftok x) = true)
+    (d : Desc) (b : Bytes) (h : WFD d b) :
+    ∃ j, toJ ftok (toDict d b) = some j ∧ parse (renderMin j) = some j ∧ parse (renderPretty j) = some j := by
+  obtain ⟨j, he, hok⟩ := toJ_ok ftok hf d b h
+  exact ⟨j, he, json_text_roundtrip_min j hok, json_text_roundtrip_pretty j hok⟩
+
+/-! ### JSON and back to bytes -/
+
+theorem strOfKey_keyOf (k : String) : strOfKey (keyOf k) = k := by
+  simp only [strOfKey, keyOf, List.map_map]
+  have : (Char.ofNat ∘ Char.toNat) = id := by funext c; simp
+  rw [this, List.map_id]
+  exact String.ofList_toList
+
+/-- **byte arrays, the JSON way**: `json.loads` hands `from_dict` a list of ints for a `ByteArray` -/
+theorem byte_array_list_roundtrip (n : Nat) (hn : 1 < n) (b : Bytes) (hw : WF (.arr .byteArray .byte n) b) :
+    fromDictLeaf (.arr .byteArray .byte n) (.seq .list (b.map fun (x : Nat) => Scalar.int (x : Int))) = (b, none) := by
+  obtain ⟨hlen, hby, _⟩ := hw
+  simp only [FTy.size, VK.esize, Nat.one_mul] at hlen
+  let pairs : List (Scalar × Bytes) := b.map fun (x : Nat) => (Scalar.int (x : Int), [x])
+  have hp1 : pairs.map (·.1) = b.map fun (x : Nat) => Scalar.int (x : Int) := by simp [pairs, Function.comp_def]
+  have hsing : ∀ (l : List Nat), (l.map fun x => [x]).flatten = l := by
+    intro l; induction l with
+    | nil => rfl
+    | cons x xs ih => simp [ih]
+  have hp2 : (pairs.map (·.2)).flatten = b := by
+    simp only [pairs, List.map_map, Function.comp_def]
+    exact hsing b
+  have hpl : pairs.length = n := by simp [pairs, hlen]
+  have hst : ∀ p ∈ pairs, elemStore .byte p.1 = .ok p.2 ∧ p.2.length = VK.byte.esize := by
+    intro p hp
+    simp only [pairs, List.mem_map] at hp
+    obtain ⟨x, hx, rfl⟩ := hp
+    have hx' := hby x hx
+    have e2 : encInt .u8 (x : Int) = [x] := by
+      simp only [encInt, IK.size, toLE]
+      have : (((x : Int) % (2 ^ (8 * 1) : Int)).toNat) = x := by simp; omega
+      rw [this]; simp; omega
+    simp only [elemStore, e2, VK.esize, List.length_cons, List.length_nil, and_self]
+  have hfill := storeSlice_fill .byte n pairs hpl hst
+  rw [hp1, hp2] at hfill
+  -- the Python-level check: `Byte.validate_many` on a list of ints
+  have hchk : intMany 0 255 false (b.map fun (x : Nat) => Scalar.int (x : Int)) = .ok () := by
+    unfold intMany
+    have h1 : (b.map fun (x : Nat) => Scalar.int (x : Int)).any (fun x => !isIntLike x) = false := by
+      simp [isIntLike]
+    simp only [h1, Bool.false_eq_true, if_false]
+    have hvals : (b.map fun (x : Nat) => Scalar.int (x : Int)).map intVal = b.map fun (x : Nat) => (x : Int) := by
+      simp [intVal, Function.comp_def]
+    rw [hvals]
+    have hin : ∀ y ∈ b.map (fun (x : Nat) => (x : Int)), (0 : Int) ≤ y ∧ y ≤ 255 := by
+      intro y hy
+      simp only [List.mem_map] at hy
+      obtain ⟨x, hx, rfl⟩ := hy
+      have := hby x hx
+      omega
+    match hm : b.map (fun (x : Nat) => (x : Int)), hin with
+    | [], _ =>
+      have : (b.map (fun (x : Nat) => (x : Int))).length = n := by simp [hlen]
+      rw [hm] at this; simp at this; omega
+    | y :: ys, hin =>
+      have hy := hin y (by simp)
+      have h2 := pyMax_le 255 ys y hy.2 (fun z hz => (hin z (by simp [hz])).2)
+      have h3 := pyMin_ge 0 ys y hy.1 (fun z hz => (hin z (by simp [hz])).1)
+      have : ¬ (pyMax y ys > 255 ∨ pyMin y ys < 0) := by omega
+      simp only [this, if_false]
+  simp only [fromDictLeaf, setItem, itemCheck, iterable, validateMany, items, oneShot, hchk, if_true, byteConv,
+    Bool.and_self, beq_self_eq_true, FTy.size]
+  simpa [VK.esize] using hfill
+
+theorem fromDict_leaf (ty : FTy) (hok : leafOk ty = true) (b : Bytes) (hw : WF ty b) :
+    fromDict (.leaf ty) (.leaf (toDictLeaf ty b)) = (b, none) := by
+  simp only [fromDict, leafArg_toDictLeaf, leaf_roundtrip ty hok b hw, Option.map_none]
+
+/-- a list of ints and floats goes through the encoder and `json.loads` unchanged (floats: by the hypothesis on the
+formatter / reader pair) -/
+theorem seqJ_back (ftok : Nat → List Char) (fparse : List Char → Nat) : ∀ (xs : List Scalar),
+    (∀ x ∈ xs, (∃ n, x = .int n) ∨ (∃ w, x = .flt w ∧ fparse (ftok w) = w)) →
+    ∃ js, seqJ ftok xs = some js ∧ js.hasObj = false ∧ js.toScalars fparse = xs
+  | [], _ => ⟨.nil, rfl, rfl, rfl⟩
+  | x :: xs, h => by
+    obtain ⟨js, he, ho, ht⟩ := seqJ_back ftok fparse xs (fun y hy => h y (by simp [hy]))
+    rcases h x (by simp) with ⟨n, rfl⟩ | ⟨w, rfl, hw⟩
+    · exact ⟨.cons (.int n) js, by simp [seqJ, scalarJ, he], by simp [JL.hasObj, ho],
+        by simp [JL.toScalars, scalarOfJ, ht]⟩
+    · exact ⟨.cons (.flt (ftok w)) js, by simp [seqJ, scalarJ, he], by simp [JL.hasObj, ho],
+        by simp [JL.toScalars, scalarOfJ, ht, hw]⟩
+
+theorem ofList_ints_back (fparse : List Char → Nat) : ∀ (bs : List Nat),
+    (JL.ofList (bs.map fun (b : Nat) => J.int (b : Int))).hasObj = false ∧
+    (JL.ofList (bs.map fun (b : Nat) => J.int (b : Int))).toScalars fparse = bs.map fun (x : Nat) => Scalar.int (x : Int)
+  | [] => ⟨rfl, rfl⟩
+  | b :: bs => by
+    have := ofList_ints_back fparse bs
+    exact ⟨by simp [JL.ofList, JL.hasObj, this.1], by simp [JL.ofList, JL.toScalars, scalarOfJ, this.2]⟩
+
+/-- every leaf: value → JSON document → `json.loads` → `from_dict` gives the bytes back -/
+theorem leaf_json_roundtrip (ftok : Nat → List Char) (fparse : List Char → Nat) (ty : FTy) (hok : leafOk ty = true)
+    (b : Bytes) (hw : WF ty b) (hrt : ∀ x ∈ leafFloats ty b, fparse (ftok x) = x) :
+    ∃ j, pyValJ ftok (toDictLeaf ty b) = some j ∧ fromDict (.leaf ty) (ofJ fparse j) = (b, none) ∧
+      ∀ kvs, j ≠ .obj kvs := by
+  match ty, hok, hw, hrt with
+  | .int k, hok, hw, _ => exact ⟨_, rfl, fromDict_leaf _ hok b hw, by intro kvs h; cases h⟩
+  | .byte, hok, hw, _ => exact ⟨_, rfl, fromDict_leaf _ hok b hw, by intro kvs h; cases h⟩
+  | .char, hok, hw, _ => exact ⟨_, rfl, fromDict_leaf _ hok b hw, by intro kvs h; cases h⟩
+  | .str n, hok, hw, _ => exact ⟨_, rfl, fromDict_leaf _ hok b hw, by intro kvs h; cases h⟩
+  | .flt .f64, hok, hw, hrt =>
+    refine ⟨.flt (ftok (fromLE b)), rfl, ?_, by intro kvs h; cases h⟩
+    have := hrt (fromLE b) (by simp [leafFloats, toDictLeaf])
+    simp only [ofJ, this]
+    exact fromDict_leaf _ hok b hw
+  | .flt .f32, hok, hw, hrt =>
+    refine ⟨.flt (ftok (widen (fromLE b))), rfl, ?_, by intro kvs h; cases h⟩
+    have := hrt (widen (fromLE b)) (by simp [leafFloats, toDictLeaf])
+    simp only [ofJ, this]
+    exact fromDict_leaf _ hok b hw
+  | .arr .byteArray .byte n, hok, hw, _ =>
+    refine ⟨_, rfl, ?_, by intro kvs h; cases h⟩
+    have hb := ofList_ints_back fparse b
+    simp only [ofJ, hb.1, Bool.false_eq_true, if_false, hb.2, fromDict, leafArg,
+      byte_array_list_roundtrip n (by simpa [leafOk] using hok) b hw, Option.map_none]
+  | .arr .intArray (.int k) n, hok, hw, _ =>
+    obtain ⟨js, he, ho, ht⟩ := seqJ_back ftok fparse (decodeItems (.int k) n b) (by
+      intro x hx; simp only [decodeItems, List.mem_map] at hx
+      obtain ⟨c, _, rfl⟩ := hx; exact Or.inl ⟨_, rfl⟩)
+    refine ⟨.arr js, by simp [toDictLeaf, pyValJ, he], ?_, by intro kvs h; cases h⟩
+    simp only [ofJ, ho, Bool.false_eq_true, if_false, ht]
+    exact fromDict_leaf _ hok b hw
+  | .arr .floatArray (.flt k) n, hok, hw, hrt =>
+    obtain ⟨js, he, ho, ht⟩ := seqJ_back ftok fparse (decodeItems (.flt k) n b) (by
+      intro x hx
+      have hx' := hx
+      rw [decodeItems_flt] at hx; simp only [List.mem_map] at hx
+      obtain ⟨c, _, rfl⟩ := hx
+      refine Or.inr ⟨_, rfl, hrt _ ?_⟩
+      simp only [leafFloats, toDictLeaf, List.mem_filterMap]
+      exact ⟨_, hx', rfl⟩)
+    refine ⟨.arr js, by simp [toDictLeaf, pyValJ, he], ?_, by intro kvs h; cases h⟩
+    simp only [ofJ, ho, Bool.false_eq_true, if_false, ht]
+    exact fromDict_leaf _ hok b hw
+
+/-! the struct-array case: one document per element, in step with the chunks -/
+inductive InStep (P : Bytes → J → Prop) : List Bytes → List J → Prop
+  | nil : InStep P [] []
+  | cons {c : Bytes} {j : J} {cs : List Bytes} {js : List J} : P c j → InStep P cs js → InStep P (c :: cs) (j :: js)
+
+theorem InStep.imp {P Q : Bytes → J → Prop} (hpq : ∀ c j, P c j → Q c j) :
+    ∀ {cs : List Bytes} {js : List J}, InStep P cs js → InStep Q cs js
+  | _, _, .nil => .nil
+  | _, _, .cons h t => .cons (hpq _ _ h) (InStep.imp hpq t)
+
+theorem toJL_chunks (ftok : Nat → List Char) (g : Bytes → Val) (P : Bytes → J → Prop) : ∀ (cs : List Bytes),
+    (∀ c ∈ cs, ∃ j, toJ ftok (g c) = some j ∧ P c j) →
+    ∃ js : List J, toJL ftok (Vals.ofList (cs.map g)) = some (JL.ofList js) ∧ InStep P cs js
+  | [], _ => ⟨[], rfl, .nil⟩
+  | c :: cs, h => by
+    obtain ⟨j, he, hp⟩ := h c (by simp)
+    obtain ⟨js, hes, hps⟩ := toJL_chunks ftok g P cs (fun d hd => h d (by simp [hd]))
+    exact ⟨j :: js, by simp [Vals.ofList, toJL, he, hes, JL.ofList], .cons hp hps⟩
+
+theorem fromElems_forall₂ (fparse : List Char → Nat) (f : Val → Bytes × Option DErr) (esz : Nat) :
+    ∀ (cs : List Bytes) (js : List J), InStep (fun c j => f (ofJ fparse j) = (c, none)) cs js →
+    fromElems f esz cs.length (ofJL fparse (JL.ofList js)).toList = (cs.flatten, none)
+  | [], [], _ => rfl
+  | c :: cs, j :: js, h => by
+    cases h with
+    | cons h1 h2 =>
+      have ih := fromElems_forall₂ fparse f esz cs js h2
+      simp only [List.length_cons, JL.ofList, ofJL, Vals.toList, fromElems, h1, ih, List.flatten_cons]
+
+mutual
+/-- **`from_json(to_json(m))` has the bytes of `m`** at the level of documents: the encoder's document for a
+well-formed message, read back as `json.loads` values and handed to `from_dict`, restores every byte.  Hypotheses: the
+class shapes of `descOkJ`, and for every float *in this message* `fparse (ftok x) = x` (Python's `float(repr(x)) == x`;
+false only for NaNs with a sign or payload, which JSON cannot express). -/
+theorem json_dict_roundtrip (ftok : Nat → List Char) (fparse : List Char → Nat) :
+    ∀ (d : Desc) (b : Bytes), WFD d b → descOkJ d = true → (∀ x ∈ floatsOf d b, fparse (ftok x) = x) →
+    ∃ j, toJ ftok (toDict d b) = some j ∧ fromDict d (ofJ fparse j) = (b, none) ∧
+      ((∃ fs t, d = .strct fs t) → ∃ kvs, j = .obj kvs)
+  | .leaf ty, b, h, _, hrt => by
+    simp only [WFD] at h
+    obtain ⟨j, he, hf, _⟩ := leaf_json_roundtrip ftok fparse ty h.1 b h.2 (by simpa only [floatsOf] using hrt)
+    exact ⟨j, by simpa only [toDict, toJ] using he, hf, by rintro ⟨fs, t, h⟩; cases h⟩
+  | .strct fs tail, b, h, hok, hrt => by
+    simp only [WFD] at h
+    obtain ⟨fb, rfl, hfb⟩ := h
+    simp only [descOkJ] at hok
+    simp only [floatsOf] at hrt
+    obtain ⟨js, he, hf⟩ := json_fields_roundtrip ftok fparse fs fb (zeros tail) .nil hfb hok hrt (by simp [KVs.keys])
+    simp only [KVs.append] at hf
+    exact ⟨.obj js, by simp only [toDict, toJ, he, Option.map_some], by simp only [ofJ, fromDict, hf], fun _ => ⟨js, rfl⟩⟩
+  | .sarr n e, b, h, hok, hrt => by
+    simp only [WFD] at h
+    simp only [descOkJ, Bool.and_eq_true, decide_eq_true_eq] at hok
+    obtain ⟨⟨hn, hst⟩, hoke⟩ := hok
+    simp only [floatsOf, List.mem_flatMap] at hrt
+    have hes : ∃ fs t, e = .strct fs t := by
+      cases e with
+      | strct fs t => exact ⟨fs, t, rfl⟩
+      | leaf _ => simp at hst
+      | sarr _ _ => simp at hst
+    obtain ⟨js, he, hall⟩ := toJL_chunks ftok (fun c => toDict e c)
+      (fun c j => fromDict e (ofJ fparse j) = (c, none) ∧ ∃ kvs, j = .obj kvs) (chunks e.size n b) (by
+        intro c hc
+        obtain ⟨j, hj, hf, ho⟩ := json_dict_roundtrip ftok fparse e c (h.2 c hc) hoke (fun x hx => hrt x ⟨c, hc, hx⟩)
+        exact ⟨j, hj, hf, ho hes⟩)
+    have hel := fromElems_forall₂ fparse (fun v => fromDict e v) e.size (chunks e.size n b) js
+      (hall.imp fun _ _ hp => hp.1)
+    rw [chunks_length, chunks_flatten e.size n b h.1] at hel
+    -- the decoded list is recognised as a list of struct dictionaries: its first element is one
+    have hobj : (JL.ofList js).hasObj = true := by
+      match hc : chunks e.size n b, js, hall with
+      | [], _, _ =>
+        have := chunks_length e.size n b; rw [hc] at this; simp at this; omega
+      | c :: cs, j :: js', hall =>
+        cases hall with
+        | cons h1 _ => obtain ⟨kvs, rfl⟩ := h1.2; simp [JL.ofList, JL.hasObj]
+    exact ⟨.arr (JL.ofList js), by simp only [toDict, toJ, he, Option.map_some],
+      by simp only [ofJ, hobj, if_true, fromDict, hel], by rintro ⟨fs, t, h⟩; cases h⟩
+theorem json_fields_roundtrip (ftok : Nat → List Char) (fparse : List Char → Nat) :
+    ∀ (fs : Fields) (b rest : Bytes) (pre : KVs), WFF fs b → fieldsOkJ fs = true →
+    (∀ x ∈ floatsOfFields fs (b ++ rest), fparse (ftok x) = x) → (∀ nm ∈ fs.names, nm ∉ pre.keys) →
+    ∃ js, toJO ftok (toDictFields fs (b ++ rest)) = some js ∧
+      fromDictFields fs (pre.append (ofJO fparse js)) = (b, none)
+  | .nil, b, rest, pre, h, _, _, _ => by
+    simp only [WFF] at h
+    exact ⟨.nil, rfl, by simp [fromDictFields, h]⟩
+  | .cons name pad d r, b, rest, pre, h, hok, hrt, hn => by
+    simp only [WFF] at h
+    obtain ⟨db, rb, rfl, hl, hd, hr, hnr⟩ := h
+    simp only [fieldsOkJ, Bool.and_eq_true] at hok
+    have hz : (zeros pad).length = pad := zeros_length pad
+    have e1 : ((zeros pad ++ db ++ rb ++ rest).drop pad).take d.size = db := by
+      rw [List.append_assoc, List.append_assoc, List.drop_left' hz, List.take_left' hl]
+    have e2 : (zeros pad ++ db ++ rb ++ rest).drop (pad + d.size) = rb ++ rest := by
+      rw [List.append_assoc]
+      exact List.drop_left' (by simp [hz, hl])
+    simp only [floatsOfFields, e1, e2, List.mem_append] at hrt
+    obtain ⟨j, hj, hf, _⟩ := json_dict_roundtrip ftok fparse d db hd hok.1 (fun x hx => hrt x (Or.inl hx))
+    have hname : name ∉ pre.keys := hn name (by simp [Fields.names])
+    have hn' : ∀ nm ∈ r.names, nm ∉ (pre.append (.cons name (ofJ fparse j) .nil)).keys := by
+      intro nm hnm
+      rw [keys_append_one]
+      simp only [List.mem_append, List.mem_singleton, not_or]
+      exact ⟨hn nm (by simp [Fields.names, hnm]), fun e => hnr (e ▸ hnm)⟩
+    obtain ⟨js, hjs, hfs⟩ := json_fields_roundtrip ftok fparse r rb rest _ hr hok.2 (fun x hx => hrt x (Or.inr hx)) hn'
+    refine ⟨.cons (keyOf name) j js, by simp only [toDictFields, e1, e2, toJO, hj, hjs], ?_⟩
+    simp only [ofJO, strOfKey_keyOf, fromDictFields, lookup_append name _ _ pre hname, hf]
+    rw [append_assoc_one, hfs]
+end
+
+/-- **message → JSON text → message**: for every class (shapes of `descOkJ`) and every well-formed content, the text
+`to_json` writes — minified or indented — is read by `json.loads` and decoded by `from_dict` to an object with exactly
+the original bytes.  Hypotheses about the opaque float formatter / reader pair: `ftok` yields float tokens, and
+`fparse (ftok x) = x` for the floats of this message. -/
+theorem message_json_roundtrip (ftok : Nat → List Char) (fparse : List Char → Nat)
+    (hf : ∀ x, floatTokOk (ftok x) = true) (d : Desc) (b : Bytes) (h : WFD d b) (hok : descOkJ d = true)
+    (hrt : ∀ x ∈ floatsOf d b, fparse (ftok x) = x) :
+    ∃ j, toJ ftok (toDict d b) = some j ∧
+      fromJson fparse d (renderMin j) = some (b, none) ∧ fromJson fparse d (renderPretty j) = some (b, none) := by
+  obtain ⟨j, he, hfd, _⟩ := json_dict_roundtrip ftok fparse d b h hok hrt
+  obtain ⟨j', he', hok'⟩ := toJ_ok ftok hf d b h
+  have : j' = j := by rw [he] at he'; exact (Option.some.inj he').symm
+  subst this
+  exact ⟨j', he, by simp only [fromJson, json_text_roundtrip_min j' hok', Option.map_some, hfd],
+    by simp only [fromJson, json_text_roundtrip_pretty j' hok', Option.map_some, hfd]⟩
+
+/-! ### copies share no storage -/
+
+theorem slice_self (b : Bytes) (off n : Nat) : slice (slice b off n) 0 n = slice b off n := by
+  simp [slice, List.take_take]
+
+/-- **`cls.copy(m)` is an equal object**: same class, same bytes -/
+theorem copy_is_equal (s : St) (o : Obj) (hv : s.valid o.ref) :
+    ∃ s' c, s.copy o = some (s', c) ∧ c.cls = o.cls ∧ s'.read c.ref = s.read o.ref ∧ c.ref.size = o.ref.size := by
+  obtain ⟨s', c, he, hc, hr, hrd, _, _⟩ := copyAs_spec s o.cls o.ref.size o.ref hv (Nat.le_refl _)
+  refine ⟨s', c, he, hc, ?_, by rw [hr]⟩
+  rw [hrd]; exact slice_self _ _ _
+
+/-- **writing any bytes into the copy leaves the source — and every other live object, every view of the source
+included — unchanged** -/
+theorem write_to_copy_leaves_source (s s' : St) (o c : Obj) (hv : s.valid o.ref) (hc : s.copy o = some (s', c))
+    (r : Ref) (hr : s.valid r) (off : Nat) (data : Bytes) : (s'.write c.ref off data).read r = s.read r := by
+  obtain ⟨s1, c1, he, _, _, _, _, hfr⟩ := copyAs_spec s o.cls o.ref.size o.ref hv (Nat.le_refl _)
+  have : (s', c) = (s1, c1) := by
+    have h1 : s.copy o = some (s1, c1) := he
+    rw [hc] at h1; exact Option.some.inj h1
+  obtain ⟨rfl, rfl⟩ := Prod.mk.inj this
+  obtain ⟨_, hrd, hne⟩ := hfr r hr
+  rw [write_frame _ _ _ _ _ (fun e => hne e.symm), hrd]
+
+/-- **and vice versa: writing any bytes into the source (or through any view of it, or into any other live object)
+leaves the copy unchanged** -/
+theorem write_to_source_leaves_copy (s s' : St) (o c : Obj) (hv : s.valid o.ref) (hc : s.copy o = some (s', c))
+    (r : Ref) (hr : s.valid r) (off : Nat) (data : Bytes) : (s'.write r off data).read c.ref = s'.read c.ref := by
+  obtain ⟨s1, c1, he, _, _, _, _, hfr⟩ := copyAs_spec s o.cls o.ref.size o.ref hv (Nat.le_refl _)
+  have : (s', c) = (s1, c1) := by
+    have h1 : s.copy o = some (s1, c1) := he
+    rw [hc] at h1; exact Option.some.inj h1
+  obtain ⟨rfl, rfl⟩ := Prod.mk.inj this
+  exact write_frame _ _ _ _ _ (hfr r hr).2.2
+
+/-- the copy lives in a buffer of its own -/
+theorem copy_is_fresh (s s' : St) (o c : Obj) (hv : s.valid o.ref) (hc : s.copy o = some (s', c)) :
+    c.ref.addr = s.heap.length ∧ c.ref.off = 0 ∧ ∀ r, s.valid r → r.addr ≠ c.ref.addr := by
+  obtain ⟨s1, c1, he, _, hrf, _, _, hfr⟩ := copyAs_spec s o.cls o.ref.size o.ref hv (Nat.le_refl _)
+  have : (s', c) = (s1, c1) := by
+    have h1 : s.copy o = some (s1, c1) := he
+    rw [hc] at h1; exact Option.some.inj h1
+  obtain ⟨rfl, rfl⟩ := Prod.mk.inj this
+  exact ⟨by rw [hrf], by rw [hrf], fun r hr => (hfr r hr).2.2⟩
+
+/-- **`Message.copy`**: the copy's header has the class and the bytes of the original header (so a time-code header
+stays a time-code header), the data likewise; the two new objects live in two fresh buffers: writing into either
+leaves every object that existed before (source header, source data, anything else) unchanged, and writing into any
+of those leaves both new objects unchanged -/
+theorem message_copy_spec (s : St) (h d : Obj) (hh : s.valid h.ref) (hd : s.valid d.ref) :
+    ∃ s' h' d', s.msgCopy h d = some (s', h', d') ∧
+      h'.cls = h.cls ∧ d'.cls = d.cls ∧ s'.read h'.ref = s.read h.ref ∧ s'.read d'.ref = s.read d.ref ∧
+      h'.ref.addr ≠ d'.ref.addr ∧
+      (∀ r, s.valid r → ∀ off data,
+        (s'.write h'.ref off data).read r = s.read r ∧ (s'.write d'.ref off data).read r = s.read r ∧
+        (s'.write r off data).read h'.ref = s'.read h'.ref ∧ (s'.write r off data).read d'.ref = s'.read d'.ref) := by
+  obtain ⟨s1, h', e1, hc1, hrf1, hrd1, hv1, hfr1⟩ := copyAs_spec s h.cls h.ref.size h.ref hh (Nat.le_refl _)
+  have hd1 := hfr1 d.ref hd
+  obtain ⟨s2, d', e2, hc2, hrf2, hrd2, hv2, hfr2⟩ := copyAs_spec s1 d.cls d.ref.size d.ref hd1.1 (Nat.le_refl _)
+  have hh2 := hfr2 h'.ref hv1
+  refine ⟨s2, h', d', ?_, hc1, hc2, ?_, ?_, hh2.2.2, ?_⟩
+  · have e1' : s.copy h = some (s1, h') := e1
+    have e2' : s1.copy d = some (s2, d') := e2
+    simp only [St.msgCopy, e1', e2']
+  · rw [hh2.2.1, hrd1]; exact slice_self _ _ _
+  · rw [hrd2, hd1.2.1]; exact slice_self _ _ _
+  · intro r hr off data
+    have a1 := hfr1 r hr
+    have a2 := hfr2 r a1.1
+    refine ⟨?_, ?_, ?_, ?_⟩
+    · rw [write_frame _ _ _ _ _ (fun e => a1.2.2 e.symm), a2.2.1, a1.2.1]
+    · rw [write_frame _ _ _ _ _ (fun e => a2.2.2 e.symm), a2.2.1, a1.2.1]
+    · exact write_frame _ _ _ _ _ a1.2.2
+    · exact write_frame _ _ _ _ _ a2.2.2
+
+/-- `cls.copy(m)` with a class larger than `m` is refused (`ValueError` of `from_buffer_copy`) -/
+theorem copy_as_too_small (s : St) (cls size : Nat) (src : Ref) (h : src.size < size) : s.copyAs cls size src = none := by
+  simp [St.copyAs]; omega
+
 /-! ### non-vacuity -/
 /-- "hello" then "hi" in a `char[8]`: the patched store leaves `hi` + six NULs, which round-trips -/
 example : setField true (.str 8) [104, 101, 108, 108, 111, 0, 0, 0] .whole (.sc (.str [104, 105])) = ([104, 105, 0, 0, 0, 0, 0, 0], none) := by decide
@@ -175,5 +1056,108 @@ example : toDictLeaf (.int .i16) [0, 128] = .sc (.int (-32768)) := by decide
 example : fromDictLeaf (.arr .intArray (.int .i8) 3) (toDictLeaf (.arr .intArray (.int .i8) 3) [255, 0, 127]) = ([255, 0, 127], none) := by decide
 example : fromDictLeaf (.arr .byteArray .byte 2) (toDictLeaf (.arr .byteArray .byte 2) [255, 0]) = ([255, 0], none) := by decide
 example : versionRefused 5 6 = true ∧ versionRefused 0 6 = false ∧ versionRefused 6 6 = false := by decide
+
+/-! #### whole classes -/
+/-- a class with a leading `int16`, two bytes of padding, then `StructArray(S, 2)` where `S = {uint8 x; char t[3]}` -/
+def exDesc : Desc :=
+  .strct (.cons "a" 0 (.leaf (.int .i16)) (.cons "s" 2
+    (.sarr 2 (.strct (.cons "x" 0 (.leaf (.int .u8)) (.cons "t" 0 (.leaf (.str 3)) .nil)) 0)) .nil)) 0
+def exBytes : Bytes := [1, 2, 0, 0, 5, 104, 0, 0, 6, 104, 105, 0]
+example : exDesc.size = 12 := by decide
+example : wfB exDesc exBytes = true := by decide
+example : toDict exDesc exBytes = .dict (.cons "a" (.leaf (.sc (.int 513))) (.cons "s" (.list
+    (.cons (.dict (.cons "x" (.leaf (.sc (.int 5))) (.cons "t" (.leaf (.sc (.str [104]))) .nil)))
+    (.cons (.dict (.cons "x" (.leaf (.sc (.int 6))) (.cons "t" (.leaf (.sc (.str [104, 105]))) .nil))) .nil))) .nil)) := by
+  decide
+example : fromDict exDesc (toDict exDesc exBytes) = (exBytes, none) := by decide
+/-- non-zero padding is not well-formed and does not come back -/
+example : wfB exDesc [1, 2, 9, 0, 5, 104, 0, 0, 6, 104, 105, 0] = false := by decide
+example : fromDict exDesc (toDict exDesc [1, 2, 9, 0, 5, 104, 0, 0, 6, 104, 105, 0]) = (exBytes, none) := by decide
+/-- a missing key, a short list: explicit errors -/
+example : (fromDict exDesc (.dict (.cons "a" (.leaf (.sc (.int 1))) .nil))).2 = some .key := by decide
+example : (fromDict exDesc (.dict (.cons "a" (.leaf (.sc (.int 1))) (.cons "s" (.list .nil) .nil)))).2 = some .index := by decide
+/-- list of characters for a string field -/
+example : fromDict (.leaf (.str 3)) (.leaf (.seq .list [.str [104], .str [105]])) = ([104, 105, 0], none) := by decide
+/-- arrays -/
+example : WF (.arr .intArray (.int .i16) 2) [255, 255, 0, 128] := wfLeafB_sound _ _ (by decide)
+example : toDictLeaf (.arr .intArray (.int .i16) 2) [255, 255, 0, 128] = .seq .list [.int (-1), .int (-32768)] := by decide
+example : fromDictLeaf (.arr .floatArray (.flt .f64) 2) (toDictLeaf (.arr .floatArray (.flt .f64) 2)
+    [0, 0, 0, 0, 0, 0, 0, 128, 1, 0, 0, 0, 0, 0, 248, 255]) = ([0, 0, 0, 0, 0, 0, 0, 128, 1, 0, 0, 0, 0, 0, 248, 255], none) := by
+  decide
+/-- the rounding hypothesis for `float` elements is satisfiable (a quiet NaN needs no rounding) and excludes signalling NaNs -/
+example : wfElemB (.flt .f32) [0, 0, 192, 127] = true := by decide +kernel
+example : wfElemB (.flt .f32) [1, 0, 128, 127] = false := by decide +kernel
+/-- the zero-length `IntArray` is outside `leafOk`, and indeed does not round-trip (Python's `max()` of an empty list) -/
+example : fromDictLeaf (.arr .intArray (.int .i8) 0) (toDictLeaf (.arr .intArray (.int .i8) 0) []) = ([], some .valueError) := by
+  decide
+
+/-! #### JSON text -/
+def exJ : J := .obj (.cons [97] (.arr (.cons (.int (-5)) (.cons (.flt ['1', '.', '5']) (.cons (.flt ['N', 'a', 'N']) .nil))))
+  (.cons [98] (.str [34, 10, 127, 233, 128512]) (.cons [99] (.arr .nil) .nil)))
+example : exJ.okB = true := by decide +kernel
+example : renderMin exJ = "{\"a\":[-5,1.5,NaN],\"b\":\"\\\"\\n\\u007f\\u00e9\\ud83d\\ude00\",\"c\":[]}".toList := by
+  decide +kernel
+example : renderPretty exJ =
+    "{\n  \"a\": [\n    -5,\n    1.5,\n    NaN\n  ],\n  \"b\": \"\\\"\\n\\u007f\\u00e9\\ud83d\\ude00\",\n  \"c\": []\n}".toList := by
+  decide +kernel
+example : parse (renderMin exJ) = some exJ := by decide +kernel
+example : parse (renderPretty exJ) = some exJ := by decide +kernel
+/-- the parser is not a rubber stamp: trailing comma, trailing garbage, a control character, a bad escape are refused;
+a surrogate pair is joined -/
+example : parse "[1,]".toList = none ∧ parse "1 2".toList = none ∧ parse "\"\t\"".toList = none ∧
+    parse "\"\\x\"".toList = none ∧ parse "01".toList = none := by decide +kernel
+example : parse "\"\\ud83d\\ude00\"".toList = some (.str [128512]) := by decide +kernel
+example : floatTokOk "1e+22".toList = true ∧ floatTokOk "-0.0".toList = true ∧ floatTokOk "12".toList = false ∧
+    floatTokOk "1.".toList = false ∧ floatTokOk "-Infinity".toList = true := by decide +kernel
+/-- the message of `exDesc`, as JSON text (no floats in it, so any formatter will do) -/
+example : (toJ (fun _ => []) (toDict exDesc exBytes)).map renderMin =
+    some "{\"a\":513,\"s\":[{\"x\":5,\"t\":\"h\"},{\"x\":6,\"t\":\"hi\"}]}".toList := by decide +kernel
+
+/-! #### the open finding C10-F3 (`TimeCodeMessageHeader`)
+`_to_dict` / `_from_dict` walk `obj._fields_`, and ctypes puts only the two fields the subclass adds into it: the
+descriptor of that walk is "48 bytes the walk does not see, then two `uint32`".  A header with an inherited field set
+(here `msg_type = 5`) is outside `WFD` and does not come back. -/
+def tcHeaderWalk : Desc :=
+  .strct (.cons "utc_seconds" 48 (.leaf (.int .u32)) (.cons "utc_fraction" 0 (.leaf (.int .u32)) .nil)) 0
+def tcHeaderBytes : Bytes := [5, 0, 0, 0] ++ List.replicate 44 0 ++ [1, 0, 0, 0, 2, 0, 0, 0]
+example : tcHeaderWalk.size = 56 ∧ tcHeaderBytes.length = 56 := by decide
+example : wfB tcHeaderWalk tcHeaderBytes = false := by decide
+example : toDict tcHeaderWalk tcHeaderBytes =
+    .dict (.cons "utc_seconds" (.leaf (.sc (.int 1))) (.cons "utc_fraction" (.leaf (.sc (.int 2))) .nil)) := by decide
+example : fromDict tcHeaderWalk (toDict tcHeaderWalk tcHeaderBytes) ≠ (tcHeaderBytes, none) := by decide
+
+/-! #### storage -/
+def exSt : St := { heap := [[1, 2, 3, 4]] }
+def exObj : Obj := { cls := 7, ref := { addr := 0, off := 0, size := 4 } }
+example : exSt.valid exObj.ref := ⟨by decide, by decide⟩
+example : exSt.copy exObj = some ({ heap := [[1, 2, 3, 4], [1, 2, 3, 4]] }, { cls := 7, ref := { addr := 1, off := 0, size := 4 } }) := by
+  decide
+/-- write into the copy: the source keeps its bytes; write into the source: the copy keeps its bytes -/
+example : (({ heap := [[1, 2, 3, 4], [1, 2, 3, 4]] } : St).write { addr := 1, off := 0, size := 4 } 1 [9, 9]).heap =
+    [[1, 2, 3, 4], [1, 9, 9, 4]] := by decide
+example : (({ heap := [[1, 2, 3, 4], [1, 2, 3, 4]] } : St).write { addr := 0, off := 0, size := 4 } 0 [8]).heap =
+    [[8, 2, 3, 4], [1, 2, 3, 4]] := by decide
+/-- in contrast a *view* (`msg.field` of a nested struct) shares: a write through it shows in the parent -/
+example : view exObj.ref 1 2 = some { addr := 0, off := 1, size := 2 } := by decide
+example : (exSt.write { addr := 0, off := 1, size := 2 } 0 [9, 9]).read exObj.ref = [1, 9, 9, 4] := by decide
+/-- a copy of the view is a fresh two-byte object -/
+example : exSt.copyAs 3 2 { addr := 0, off := 1, size := 2 } =
+    some ({ heap := [[1, 2, 3, 4], [2, 3]] }, { cls := 3, ref := { addr := 1, off := 0, size := 2 } }) := by decide
+example : exSt.copyAs 3 5 exObj.ref = none := by decide
+example : ({ heap := [[1, 2], [5, 6, 7]] } : St).msgCopy { cls := 1, ref := ⟨0, 0, 2⟩ } { cls := 2, ref := ⟨1, 0, 3⟩ } =
+    some ({ heap := [[1, 2], [5, 6, 7], [1, 2], [5, 6, 7]] }, { cls := 1, ref := ⟨2, 0, 2⟩ }, { cls := 2, ref := ⟨3, 0, 3⟩ }) := by
+  decide
+
+/-! #### JSON and back -/
+/-- the message of `exDesc` through `to_json(minify=True)` and `from_json` -/
+example : fromJson (fun _ => 0) exDesc "{\"a\":513,\"s\":[{\"x\":5,\"t\":\"h\"},{\"x\":6,\"t\":\"hi\"}]}".toList =
+    some (exBytes, none) := by decide +kernel
+example : floatsOf exDesc exBytes = [] ∧ descOkJ exDesc = true := by decide +kernel
+/-- a byte array arrives as a list of ints -/
+example : fromJson (fun _ => 0) (.strct (.cons "b" 0 (.leaf (.arr .byteArray .byte 3)) .nil) 0) "{\"b\": [255, 0, 7]}".toList =
+    some ([255, 0, 7], none) := by decide +kernel
+/-- a missing key and malformed text are refused -/
+example : (fromJson (fun _ => 0) exDesc "{\"a\":513}".toList).map (·.2) = some (some .key) := by decide +kernel
+example : fromJson (fun _ => 0) exDesc "{\"a\":513,}".toList = none := by decide +kernel
 
 end Pyrtma.C10
